@@ -166,7 +166,15 @@ def check_file_set(ctx, db, params, pfile, kind, what, case, tag):
             line, a, b = where[name]
             w = {'observation': name, 'extracted': vals[name], 'simulated': row[3], 'output_line': line, 'columns': [a, b], 'what': what, 'kind': kind}
             # classifier: the printed value is wider than the field the instruction reads
-            key = 'ins-field-narrower-than-value' if len(line) > b and float(line[a - 1:]) == row[3] else 'instruction-file-extracts-a-different-value'
+            # (the recorded finding is about the 22-character field of
+            # columns 3:24 and a value that needs more than 22 characters)
+            full_value = len(line) > b and float(line[a - 1:]) == row[3]
+            if full_value and (a, b) == (3, 24) and len(line[a - 1:].strip()) > 22:
+                key = 'ins-field-narrower-than-value'
+            elif full_value:
+                key = 'instruction-field-truncates-the-printed-value'
+            else:
+                key = 'instruction-file-extracts-a-different-value'
             rec.violation(key, w, wcase, 'pest')
             ok = False
             break
